@@ -57,17 +57,28 @@ def stmt_key(node: ast.AST) -> str:
     return text[:160]
 
 
-def walk_local(node: ast.AST, include_lambdas: bool = True) -> typing.Iterator[ast.AST]:
-    """Walk the body of a function/class without descending into nested defs (and optionally lambdas)."""
+def walk_local(node: ast.AST, include_lambdas: bool = True) -> typing.Iterable[ast.AST]:
+    """Walk the body of a function/class without descending into nested defs (and optionally lambdas).
+    The (immutable) result is memoised on the node."""
+    attr = '_wl' if include_lambdas else '_wl0'
+    cached = getattr(node, attr, None)
+    if cached is not None:
+        return cached
+    out = []
     stack = list(ast.iter_child_nodes(node))[::-1]
     while stack:
         cur = stack.pop()
-        yield cur
+        out.append(cur)
         if isinstance(cur, FUNC + (ast.ClassDef,)):
             continue
         if isinstance(cur, ast.Lambda) and not include_lambdas:
             continue
         stack.extend(list(ast.iter_child_nodes(cur))[::-1])
+    try:
+        setattr(node, attr, out)
+    except AttributeError:
+        pass
+    return out
 
 
 def walk_deep(node: ast.AST) -> typing.Iterator[ast.AST]:
